@@ -3,6 +3,7 @@ package optionreflect
 import (
 	"math"
 	"math/bits"
+	"sort"
 	"strconv"
 	"unicode/utf8"
 
@@ -77,7 +78,19 @@ func walkOptionMap(fieldDesc protoreflect.FieldDescriptor, mp protoreflect.Map) 
 		panic("map value is message, not supported")
 	}
 
-	mp.Range(func(key protoreflect.MapKey, val protoreflect.Value) bool {
+	// Map.Range has no defined order: print the entries sorted by key so
+	// that the same descriptor always prints to the same text.
+	keys := make([]protoreflect.MapKey, 0, mp.Len())
+	mp.Range(func(key protoreflect.MapKey, _ protoreflect.Value) bool {
+		keys = append(keys, key)
+		return true
+	})
+	sort.Slice(keys, func(i, j int) bool {
+		return mapKeyLess(fieldDesc.MapKey().Kind(), keys[i], keys[j])
+	})
+
+	for _, key := range keys {
+		val := mp.Get(key)
 		mapVal := walkOptionScalar(fieldDesc.MapValue(), val)
 		keyVal := walkOptionScalar(fieldDesc.MapKey(), key.Value())
 		mapVal.Key = "value"
@@ -91,10 +104,24 @@ func walkOptionMap(fieldDesc protoreflect.FieldDescriptor, mp protoreflect.Map) 
 			},
 		}
 		out.Children = append(out.Children, kvChild)
-		return true
-	})
+	}
 
 	return out
+}
+
+func mapKeyLess(kind protoreflect.Kind, a, b protoreflect.MapKey) bool {
+	switch kind {
+	case protoreflect.BoolKind:
+		return !a.Bool() && b.Bool()
+	case protoreflect.Int32Kind, protoreflect.Sint32Kind, protoreflect.Sfixed32Kind,
+		protoreflect.Int64Kind, protoreflect.Sint64Kind, protoreflect.Sfixed64Kind:
+		return a.Int() < b.Int()
+	case protoreflect.Uint32Kind, protoreflect.Fixed32Kind,
+		protoreflect.Uint64Kind, protoreflect.Fixed64Kind:
+		return a.Uint() < b.Uint()
+	default:
+		return a.String() < b.String()
+	}
 }
 
 func walkOptionMessage(fieldDesc protoreflect.FieldDescriptor, msgVal protoreflect.Message) OptionField {
